@@ -373,7 +373,7 @@ META = dict(
     required_reach=["read-missing-index", "read-missing-sub", "read-wo", "read-no-value", "read-ok",
                     "write-missing-index", "write-missing-sub", "write-ro", "write-length", "write-ok",
                     "toggle-upload", "toggle-download", "unknown-ccs7", "unknown-block", "client-abort"],
-    limits=dict(quick=dict(max_decisions=20000), thorough=dict(max_decisions=20000)),
+    limits=dict(quick=dict(max_decisions=20000), thorough=dict(max_decisions=20000, crosscheck_every=20, crosscheck_max=20)),
     validate_every=dict(quick=3, thorough=3),
     max_validate=dict(quick=60, thorough=100),
 )
